@@ -1634,7 +1634,9 @@ fn process_stream_search_params<T: Read + Write>(
     }
 
     // perform the search now synchronous/blocking:
-    let mut search_idxs: Vec<DltMessageIndexType> = Vec::with_capacity(max_results);
+    // max_results is provided by the client and can be huge. So limit the upfront allocation:
+    let mut search_idxs: Vec<DltMessageIndexType> =
+        Vec::with_capacity(std::cmp::min(max_results, 1024));
 
     // check msgs from _processed_len to all_msgs_len
     // todo use parallel iterator
